@@ -166,7 +166,18 @@ def check_history(run, m, other=None):
             except Exception as e:  # noqa
                 fail(run, m, 'decode-other', 'raised %r' % (e,), case)
                 ok = False
+        if fresh is not None:
+            _scribble(fresh)
+    _scribble(d)            # the application edits what it decoded (see c01.scribble): nothing of it may be shared with the library
     return ok
+
+
+def _scribble(o):
+    from .c01 import scribble
+    try:
+        scribble(o)
+    except Exception:  # noqa
+        pass
 
 
 def check_wire_history(run, m):
@@ -203,6 +214,7 @@ def check_wire_history(run, m):
     if e2 != e:
         fail(run, m, 'encode-twice-differs', 'decoded object: %s then %s' % (e.hex()[:80], e2.hex()[:80]), case)
         ok = False
+    _scribble(d)
     return ok
 
 
@@ -213,6 +225,9 @@ def run(run):
                 'non-trivial = some field non-zero / list non-empty')
     run.assumptions = ['adapter table vmon/adapters.py', 'spec codec only used to bound sizes (<= 253-byte PDU)']
     installed = contracts.install_purity(recorder=None)
+    # a class registered on one decoder object (the documented extension point) must not change what any standard PDU decodes to
+    from .c01 import custom_registration
+    custom_registration(run)
     per_kind = run.scale(600, 50000)
     for k in gen.KINDS:
         d, fc, sub = k
@@ -303,6 +318,11 @@ def suite_with_contracts(run):
 
 
 def replay(run, case):
+    if case.get('op') == 'custom-registration':
+        from .c01 import custom_registration
+        custom_registration(run)
+        run.evaluations += 1
+        return
     if 'class' in case:
         print('contract firing recorded for', case['class'], case.get('what'))
         run.violation('contract-purity:%s' % case['class'], case, 'recorded contract firing (re-run the check to reproduce)')
